@@ -31,6 +31,8 @@ def jobs(tier):
         J.append(Job(b, "merged", "1,0,1,0", p1, env))
         J.append(Job(b, "merged", "1,0,0,0", dict(p1, futex_enosys=1), env))
         J.append(Job(b, "three_callers", "1,0,0,0", p1, env))
+        if not q or (b == "gp_mb"):
+            J.append(Job(b, "three_callers", "1,0,1,0", p1, env))
         J.append(Job(b, "two_readers", "2,0,0,0", p1, env))
         if not q:
             J.append(Job(b, "basic", "3,1,1,0", p1, env, workers=16))
@@ -40,7 +42,7 @@ def jobs(tier):
             J.append(Job(b, "two_sections", "2,0,2,0", p1, env, workers=16))
             J.append(Job(b, "merged", "2,0,1,0", p1, env, workers=16))
             J.append(Job(b, "merged", "2,1,0,0", p1, env, workers=16))
-            J.append(Job(b, "three_callers", "1,0,1,0", p1, env, workers=16))
+            J.append(Job(b, "three_callers", "2,0,1,0", p1, env, workers=16))
             J.append(Job(b, "two_readers", "2,0,1,0", p1, env, workers=16))
             J.append(Job(b, "two_readers", "2,0,0,0", dict(p1, futex_enosys=1), env, workers=16))
     return J
